@@ -9,6 +9,8 @@ import VsgProofs.Lemmas.BFull2VSpace
 import VsgProofs.Lemmas.BFull2Affix   -- wp2b_affix
 import VsgProofs.Lemmas.BFull2Below   -- wp2c_vspace
 import VsgProofs.Lemmas.BFull2Above   -- wp2c_vspace
+import VsgProofs.Lemmas.BFull2BelowNo   -- wp2d_vspace
+import VsgProofs.Lemmas.BFull2AboveNo   -- wp2d_vspace
 namespace Vsgm.BFULL2
 open Vsgm Vsgm.TM Vsgm.BFull2.VSpace Vsgm.Base.BlankLine
 
@@ -327,20 +329,20 @@ theorem rows_linePreceding (uid : Tok → Option Key) (rows : List (Row Tok)) (h
 theorem above_analyze_scan (uid : Tok → Option Key) (inst : Tok → Nat → Bool) (P : Params) (hP : AboveRequire P) (hO : HOracle)
     (rows : List (Row Tok)) (h : RowsOk uid rows) (hcs : BFull2.CsOk P.cs) :
     (sem uid inst P hO).analyze (join rows) = violsA uid inst P 0 2 rows :=
-  analyzeA_scan uid inst P hP hO rows h hcs
+  analyzeA_scan uid inst P hP.like hO rows h hcs
 
 /-- **the file after `Rule.fix`**: behind every reported row a new row holding one blank-line token -/
 theorem above_fixAll (uid : Tok → Option Key) (inst : Tok → Nat → Bool) (P : Params) (hP : AboveRequire P) (hO : HOracle)
     (rows : List (Row Tok)) (h : RowsOk uid rows) (hcs : BFull2.CsOk P.cs) (hb : ∀ r ∈ rows, ∀ t ∈ r.1, t.isBof = false) :
     fixAll uid inst P hO (join rows) = join (expandA uid inst P rows) :=
-  fixAllA_join uid inst P hP hO rows h hcs hb
+  fixAllA_join uid inst P hP.like hO rows h hcs hb
 
 /-- **C10, whole rule** -/
 theorem above_idem (uid : Tok → Option Key) (inst : Tok → Nat → Bool) (P : Params) (hP : AboveRequire P) (hO : HOracle)
     (rows : List (Row Tok)) (h : RowsOk uid rows) (hcs : BFull2.CsOk P.cs) (hb : ∀ r ∈ rows, ∀ t ∈ r.1, t.isBof = false)
     (hn : NewTokOk uid inst P) :
     (sem uid inst P hO).analyze (fixAll uid inst P hO (join rows)) = [] :=
-  analyze_fixAll_above uid inst P hP hO rows h hcs hb hn
+  analyze_fixAll_above uid inst P hP.like hO rows h hcs hb hn
 
 /-- **C03 / C07, whole rule**: layout-only, exactly one line break more per violation -/
 theorem above_effect (uid : Tok → Option Key) (inst : Tok → Nat → Bool) (P : Params) (hP : AboveRequire P) (hO : HOracle)
@@ -348,7 +350,7 @@ theorem above_effect (uid : Tok → Option Key) (inst : Tok → Nat → Bool) (P
     LayoutOnly (join rows) (fixAll uid inst P hO (join rows)) ∧
     (crSeq (fixAll uid inst P hO (join rows))).length =
       (crSeq (join rows)).length + ((sem uid inst P hO).analyze (join rows)).length :=
-  fixAll_above_effect uid inst P hP hO rows h hcs hb
+  fixAll_above_effect uid inst P hP.like hO rows h hcs hb
 
 /-- non-vacuity: `x⏎ begin⏎` with `begin` listed — one violation on line 2 about line 1, a blank line goes in between -/
 example :
@@ -375,5 +377,232 @@ end above
 
 /-! ### END wp2c_vspace -/
 
+
+/-! ### BEGIN wp2d_vspace -/
+
+/-! #### blank_line_below_line_ending_with_token, style no_blank_line (no hierarchy limits) — the WHOLE rule on a file of rows -/
+
+section belowNo
+open BFull2.Rows
+
+/-- **the analysis is a scan over the rows**: one violation per trigger row that is followed by a run of rows starting
+    with a blank_line token — the whole run, reported on the line below the trigger.  Guards: `CsOk`, `NoDupRows` -/
+theorem belowNo_analyze_scan (uid : Tok → Option Key) (inst : Tok → Nat → Bool) (P : Params) (hP : BelowNoBlank P) (hO : HOracle)
+    (rows : List (Row Tok)) (h : RowsOk uid rows) (hcs : BFull2.CsOk P.cs) (hnd : NoDupRows uid P.cs rows) :
+    (sem uid inst P hO).analyze (join rows) = violsN uid P 0 2 rows :=
+  analyzeN_scan uid inst P hP hO rows h hcs hnd
+
+/-- **the file after `Rule.fix`**: every such run is gone (`BlankNotTrig`: a row that starts with a blank_line token does
+    not itself end with a listed token — otherwise regions overlap; `RowsNoBof`: no pseudo tokens) -/
+theorem belowNo_fixAll (uid : Tok → Option Key) (inst : Tok → Nat → Bool) (P : Params) (hP : BelowNoBlank P) (hO : HOracle)
+    (rows : List (Row Tok)) (h : RowsOk uid rows) (hcs : BFull2.CsOk P.cs) (hnd : NoDupRows uid P.cs rows) (hb : RowsNoBof rows)
+    (hbt : BlankNotTrig uid P rows) :
+    fixAll uid inst P hO (join rows) = join (shrink uid P 0 rows) :=
+  fixAllN_join uid inst P hP hO rows h hcs hnd hb hbt
+
+/-- **C10, whole rule** -/
+theorem belowNo_idem (uid : Tok → Option Key) (inst : Tok → Nat → Bool) (P : Params) (hP : BelowNoBlank P) (hO : HOracle)
+    (rows : List (Row Tok)) (h : RowsOk uid rows) (hcs : BFull2.CsOk P.cs) (hnd : NoDupRows uid P.cs rows) (hb : RowsNoBof rows)
+    (hbt : BlankNotTrig uid P rows) :
+    (sem uid inst P hO).analyze (fixAll uid inst P hO (join rows)) = [] :=
+  analyze_fixAll_belowNo uid inst P hP hO rows h hcs hnd hb hbt
+
+/-- **C03 / C07, whole rule**: layout-only exactly under `RunLayout` (the removed rows hold layout tokens only — a stray
+    blank_line token in front of code is removed WITH the code: the known defect of the blank-line removers); the line
+    count drops by exactly the line breaks of the removed regions -/
+theorem belowNo_effect (uid : Tok → Option Key) (inst : Tok → Nat → Bool) (P : Params) (hP : BelowNoBlank P) (hO : HOracle)
+    (rows : List (Row Tok)) (h : RowsOk uid rows) (hcs : BFull2.CsOk P.cs) (hnd : NoDupRows uid P.cs rows) (hb : RowsNoBof rows)
+    (hbt : BlankNotTrig uid P rows) :
+    (RunLayout uid rows → LayoutOnly (join rows) (fixAll uid inst P hO (join rows))) ∧
+    (crSeq (join rows)).length =
+      (crSeq (fixAll uid inst P hO (join rows))).length + sumCr ((sem uid inst P hO).analyze (join rows)) :=
+  fixAll_belowNo_effect uid inst P hP hO rows h hcs hnd hb hbt
+
+/-- non-vacuity: `x ;⏎ ⏎ ⏎ y⏎` (two blank rows) with `;` listed: one violation on line 2 holding both rows; they go -/
+example :
+    let uid : Tok → Option Key := fun t =>
+      if t.cls = 1 then some crKey else if t.cls = 7 then some ("x", "semicolon") else if t.cls = 6 then some blankKey else none
+    let P : Params := { family := .below, cs := [⟨some ("x", "semicolon"), 7⟩], allow := [], style := sNoBlank, crCls := 1, blCls := 6,
+                        wsCls := 2, commentCls := 13, pragmaCls := 99 }
+    let inst : Tok → Nat → Bool := fun t c => t.cls == c
+    let cr : Tok := ⟨1, .cr, ['\n']⟩
+    let bl : Tok := ⟨6, .blank, []⟩
+    let rows : List (Row Tok) := [([⟨9, .code, "x".toList⟩, ⟨7, .code, ";".toList⟩], cr), ([bl], cr), ([bl], cr), ([⟨9, .code, "y".toList⟩], cr)]
+    ((sem uid inst P (fun _ => none)).analyze (join rows)).map (fun v => (v.line, v.start, v.toks.length)) = [(2, 3, 4)] ∧
+    fixAll uid inst P (fun _ => none) (join rows) = [⟨9, .code, "x".toList⟩, ⟨7, .code, ";".toList⟩, cr, ⟨9, .code, "y".toList⟩, cr] ∧
+    (sem uid inst P (fun _ => none)).analyze (fixAll uid inst P (fun _ => none) (join rows)) = [] := by
+  decide +kernel
+
+end belowNo
+
+/-! #### previous_line, style require_blank_line (no hierarchy limits) — the WHOLE rule on a file of rows: extractor,
+    judgement and fix are those of blank_line_above_line_starting_with_token (`AboveLike` covers both families) -/
+
+section previous
+open BFull2.Rows
+
+/-- previous_line with style require_blank_line and `lHierarchyLimits = None` -/
+theorem previous_like (P : Params) (hf : P.family = .previous) (hh : P.hier = none) (hs : P.style = sRequire) : AboveLike P :=
+  ⟨Or.inr ⟨hf, hh⟩, hs⟩
+
+theorem previous_analyze_scan (uid : Tok → Option Key) (inst : Tok → Nat → Bool) (P : Params) (hP : AboveLike P) (hO : HOracle)
+    (rows : List (Row Tok)) (h : RowsOk uid rows) (hcs : BFull2.CsOk P.cs) :
+    (sem uid inst P hO).analyze (join rows) = violsA uid inst P 0 2 rows :=
+  analyzeA_scan uid inst P hP hO rows h hcs
+
+theorem previous_fixAll (uid : Tok → Option Key) (inst : Tok → Nat → Bool) (P : Params) (hP : AboveLike P) (hO : HOracle)
+    (rows : List (Row Tok)) (h : RowsOk uid rows) (hcs : BFull2.CsOk P.cs) (hb : ∀ r ∈ rows, ∀ t ∈ r.1, t.isBof = false) :
+    fixAll uid inst P hO (join rows) = join (expandA uid inst P rows) :=
+  fixAllA_join uid inst P hP hO rows h hcs hb
+
+/-- **C10, whole rule (previous_line and blank_line_above…)** -/
+theorem previous_idem (uid : Tok → Option Key) (inst : Tok → Nat → Bool) (P : Params) (hP : AboveLike P) (hO : HOracle)
+    (rows : List (Row Tok)) (h : RowsOk uid rows) (hcs : BFull2.CsOk P.cs) (hb : ∀ r ∈ rows, ∀ t ∈ r.1, t.isBof = false)
+    (hn : NewTokOk uid inst P) :
+    (sem uid inst P hO).analyze (fixAll uid inst P hO (join rows)) = [] :=
+  analyze_fixAll_above uid inst P hP hO rows h hcs hb hn
+
+/-- **C03 / C07, whole rule**: layout-only, exactly one line break more per violation -/
+theorem previous_effect (uid : Tok → Option Key) (inst : Tok → Nat → Bool) (P : Params) (hP : AboveLike P) (hO : HOracle)
+    (rows : List (Row Tok)) (h : RowsOk uid rows) (hcs : BFull2.CsOk P.cs) (hb : ∀ r ∈ rows, ∀ t ∈ r.1, t.isBof = false) :
+    LayoutOnly (join rows) (fixAll uid inst P hO (join rows)) ∧
+    (crSeq (fixAll uid inst P hO (join rows))).length =
+      (crSeq (join rows)).length + ((sem uid inst P hO).analyze (join rows)).length :=
+  fixAll_above_effect uid inst P hP hO rows h hcs hb
+
+/-- non-vacuity (family previous): `x⏎ begin⏎` — a blank line goes in between, nothing left -/
+example :
+    let uid : Tok → Option Key := fun t =>
+      if t.cls = 1 then some crKey else if t.cls = 7 then some ("x", "begin") else if t.cls = 6 then some blankKey else none
+    let P : Params := { family := .previous, cs := [⟨some ("x", "begin"), 7⟩], allow := [], style := sRequire, crCls := 1, blCls := 6,
+                        wsCls := 2, commentCls := 13, pragmaCls := 99 }
+    let inst : Tok → Nat → Bool := fun t c => t.cls == c
+    let cr : Tok := ⟨1, .cr, ['\n']⟩
+    let rows : List (Row Tok) := [([⟨9, .code, "x".toList⟩], cr), ([⟨7, .code, "begin".toList⟩], cr)]
+    AboveLike P ∧
+    fixAll uid inst P (fun _ => none) (join rows) =
+      [⟨9, .code, "x".toList⟩, cr, ⟨6, .blank, []⟩, cr, ⟨7, .code, "begin".toList⟩, cr] ∧
+    (sem uid inst P (fun _ => none)).analyze (fixAll uid inst P (fun _ => none) (join rows)) = [] := by
+  refine ⟨⟨Or.inr ⟨rfl, rfl⟩, rfl⟩, ?_, ?_⟩ <;> decide +kernel
+
+end previous
+
+/-! #### blank_line_above_line_starting_with_token AND previous_line, style no_blank_line — the WHOLE rule on a file of
+    rows.  `get_index_of_previous_non_whitespace_token_before_index` walks back over whitespace, line breaks and blank_line
+    tokens: the ANCHOR row is the nearest row above the trigger that holds any other token; the violation runs from the
+    anchor's line break up to (not including) the line break in front of the trigger.  The loop never looks at token 0 of
+    the file (`repR`, offset 0) — the defect is carried by the model, see the second example. -/
+
+section aboveNo
+open BFull2.Rows
+
+/-- style no_blank_line of either family -/
+theorem aboveNo_of (P : Params) (hf : P.family = .above ∨ P.family = .previous) (hs : P.style = sNoBlank) : AboveNoBlank P :=
+  ⟨hf, hs⟩
+
+/-- **the analysis is a forward scan over the rows**: a row with a token other than whitespace / blank_line (not token 0 of
+    the file), then a non-empty run of rows without such a token, then a row that starts with a listed token.
+    Guards: `CsOk`; `TrigSolid` (a row that starts with a listed token holds a token other than whitespace / blank_line) -/
+theorem aboveNo_analyze_scan (uid : Tok → Option Key) (inst : Tok → Nat → Bool) (P : Params) (hP : AboveNoBlank P) (hO : HOracle)
+    (rows : List (Row Tok)) (h : RowsOk uid rows) (hcs : BFull2.CsOk P.cs) (hts : TrigSolid uid P rows) :
+    (sem uid inst P hO).analyze (join rows) = violsAN uid P 0 2 rows :=
+  analyzeAN_scan uid inst P hP hO rows h hcs hts
+
+/-- **the file after `Rule.fix`**: every such run is gone; the anchor row ends with the LAST line break of the run -/
+theorem aboveNo_fixAll (uid : Tok → Option Key) (inst : Tok → Nat → Bool) (P : Params) (hP : AboveNoBlank P) (hO : HOracle)
+    (rows : List (Row Tok)) (h : RowsOk uid rows) (hcs : BFull2.CsOk P.cs) (hts : TrigSolid uid P rows) (hb : RowsNoBof rows) :
+    fixAll uid inst P hO (join rows) = join (shrinkA uid P 0 0 rows) :=
+  fixAllAN_join uid inst P hP hO rows h hcs hts hb
+
+/-- **C10, whole rule** -/
+theorem aboveNo_idem (uid : Tok → Option Key) (inst : Tok → Nat → Bool) (P : Params) (hP : AboveNoBlank P) (hO : HOracle)
+    (rows : List (Row Tok)) (h : RowsOk uid rows) (hcs : BFull2.CsOk P.cs) (hts : TrigSolid uid P rows) (hb : RowsNoBof rows) :
+    (sem uid inst P hO).analyze (fixAll uid inst P hO (join rows)) = [] :=
+  analyze_fixAll_aboveNo uid inst P hP hO rows h hcs hts hb
+
+/-- **C03 / C07, whole rule**: layout-only exactly under `SoftLayout` (line breaks are layout, and so are the tokens of the
+    rows without a token other than whitespace / blank_line); the line count drops by exactly the line breaks among the
+    removed tokens -/
+theorem aboveNo_effect (uid : Tok → Option Key) (inst : Tok → Nat → Bool) (P : Params) (hP : AboveNoBlank P) (hO : HOracle)
+    (rows : List (Row Tok)) (h : RowsOk uid rows) (hcs : BFull2.CsOk P.cs) (hts : TrigSolid uid P rows) (hb : RowsNoBof rows) :
+    (SoftLayout uid rows → LayoutOnly (join rows) (fixAll uid inst P hO (join rows))) ∧
+    (crSeq (join rows)).length =
+      (crSeq (fixAll uid inst P hO (join rows))).length + sumCr ((sem uid inst P hO).analyze (join rows)) :=
+  fixAll_aboveNo_effect uid inst P hP hO rows h hcs hts hb
+
+/-- **C07 in rows** (`KindRows`: the line breaks of the rows are `.cr` tokens, their contents are not): the number of rows
+    drops by exactly the line breaks among the removed tokens — above / previous and below -/
+theorem aboveNo_rows (uid : Tok → Option Key) (P : Params) (rows : List (Row Tok)) (hk : KindRows rows) :
+    rows.length = (shrinkA uid P 0 0 rows).length + sumCr (violsAN uid P 0 2 rows) :=
+  rows_aboveNo uid P rows hk
+
+theorem belowNo_rows (uid : Tok → Option Key) (P : Params) (rows : List (Row Tok)) (hk : KindRows rows)
+    (hbt : BlankNotTrig uid P rows) :
+    rows.length = (shrink uid P 0 rows).length + sumCr (violsN uid P 0 2 rows) :=
+  rows_belowNo uid P rows hk hbt
+
+/-- `TrigSolid` holds as soon as no listed token is itself a whitespace or blank_line token -/
+theorem aboveNo_trigSolid (uid : Tok → Option Key) (P : Params) (rows : List (Row Tok))
+    (hc : ∀ t, BFull2.matchB uid P.cs t = true → softTok uid t = false) : TrigSolid uid P rows :=
+  trigSolid_of uid P rows hc
+
+/-- non-vacuity (family previous): `y⏎ x⏎ ⏎ begin⏎` — one violation on line 4 (line break of row 2 and the blank_line
+    token); after the fix `x` ends with the line break of the removed row; nothing left -/
+example :
+    let uid : Tok → Option Key := fun t =>
+      if t.cls = 1 then some crKey else if t.cls = 7 then some ("x", "begin") else if t.cls = 6 then some blankKey else none
+    let P : Params := { family := .previous, cs := [⟨some ("x", "begin"), 7⟩], allow := [], style := sNoBlank, crCls := 1, blCls := 6,
+                        wsCls := 2, commentCls := 13, pragmaCls := 99 }
+    let inst : Tok → Nat → Bool := fun t c => t.cls == c
+    let cr : Tok := ⟨1, .cr, ['\n']⟩
+    let cr2 : Tok := ⟨1, .cr, ['\r', '\n']⟩
+    let bl : Tok := ⟨6, .blank, []⟩
+    let rows : List (Row Tok) := [([⟨9, .code, "y".toList⟩], cr), ([⟨9, .code, "x".toList⟩], cr), ([bl], cr2), ([⟨7, .code, "begin".toList⟩], cr)]
+    ((sem uid inst P (fun _ => none)).analyze (join rows)).map (fun v => (v.line, v.start, v.toks)) = [(4, 3, [cr, bl])] ∧
+    fixAll uid inst P (fun _ => none) (join rows) =
+      [⟨9, .code, "y".toList⟩, cr, ⟨9, .code, "x".toList⟩, cr2, ⟨7, .code, "begin".toList⟩, cr] ∧
+    (sem uid inst P (fun _ => none)).analyze (fixAll uid inst P (fun _ => none) (join rows)) = [] := by
+  decide +kernel
+
+/-- the defect of `get_index_of_previous_non_whitespace_token_before_index` (`range(iStart, 0, -1)` never reaches index 0):
+    `x⏎ ⏎ begin⏎` with `x` token 0 of the file — NO violation although a blank line stands above `begin`
+    (family above; the real rule agrees: `-- c⏎ ⏎ entity e is` with entity_003 style no_blank_line reports nothing) -/
+example :
+    let uid : Tok → Option Key := fun t =>
+      if t.cls = 1 then some crKey else if t.cls = 7 then some ("x", "begin") else if t.cls = 6 then some blankKey else none
+    let P : Params := { family := .above, cs := [⟨some ("x", "begin"), 7⟩], allow := [], style := sNoBlank, crCls := 1, blCls := 6,
+                        wsCls := 2, commentCls := 13, pragmaCls := 99 }
+    let inst : Tok → Nat → Bool := fun t c => t.cls == c
+    let cr : Tok := ⟨1, .cr, ['\n']⟩
+    let bl : Tok := ⟨6, .blank, []⟩
+    let rows : List (Row Tok) := [([⟨9, .code, "x".toList⟩], cr), ([bl], cr), ([⟨7, .code, "begin".toList⟩], cr)]
+    AboveNoBlank P ∧ (sem uid inst P (fun _ => none)).analyze (join rows) = [] ∧ violsAN uid P 0 2 rows = [] := by
+  refine ⟨⟨Or.inl rfl, rfl⟩, ?_, ?_⟩ <;> decide +kernel
+
+/-- non-vacuity of the guards and of the row count: the rows of the first example satisfy `KindRows`, `TrigSolid`,
+    `SoftLayout`; 4 rows = 3 rows + 1 removed line break.  Below: `x ;⏎ ⏎ ⏎ y⏎`, 4 rows = 2 rows + 2 -/
+example :
+    let uid : Tok → Option Key := fun t =>
+      if t.cls = 1 then some crKey else if t.cls = 7 then some ("x", "begin") else if t.cls = 6 then some blankKey else none
+    let P : Params := { family := .previous, cs := [⟨some ("x", "begin"), 7⟩], allow := [], style := sNoBlank, crCls := 1, blCls := 6,
+                        wsCls := 2, commentCls := 13, pragmaCls := 99 }
+    let cr : Tok := ⟨1, .cr, ['\n']⟩
+    let bl : Tok := ⟨6, .blank, []⟩
+    let rows : List (Row Tok) := [([⟨9, .code, "y".toList⟩], cr), ([⟨9, .code, "x".toList⟩], cr), ([bl], cr), ([⟨7, .code, "begin".toList⟩], cr)]
+    let P' : Params := { P with family := .below, cs := [⟨some ("x", "semicolon"), 8⟩] }
+    let uid' : Tok → Option Key := fun t =>
+      if t.cls = 1 then some crKey else if t.cls = 8 then some ("x", "semicolon") else if t.cls = 6 then some blankKey else none
+    let rows' : List (Row Tok) := [([⟨9, .code, "x".toList⟩, ⟨8, .code, ";".toList⟩], cr), ([bl], cr), ([bl], cr), ([⟨9, .code, "y".toList⟩], cr)]
+    (∀ r ∈ rows, r.2.isCr = true ∧ ∀ t ∈ r.1, t.isCr = false) ∧
+    (∀ r ∈ rows, bolTrig uid P.cs r = true → softRow uid r = false) ∧
+    (∀ r ∈ rows, nonLayout [r.2] = [] ∧ (softRow uid r = true → nonLayout r.1 = [])) ∧
+    (shrinkA uid P 0 0 rows).length = 3 ∧ sumCr (violsAN uid P 0 2 rows) = 1 ∧
+    (∀ r ∈ rows', blankStart uid' r = true → trigRow uid' P'.cs r = false) ∧
+    (shrink uid' P' 0 rows').length = 2 ∧ sumCr (violsN uid' P' 0 2 rows') = 2 := by
+  decide +kernel
+
+end aboveNo
+
+/-! ### END wp2d_vspace -/
 
 end Vsgm.BFULL2
